@@ -83,3 +83,14 @@ package aggregator
 //@ func (*calculator).newRoundPricesList
 //@   requires c != nil && 0 <= c.validatorLength && c.validatorLength < 1000000
 //@   ensures[C12.nrpl.room] result != nil && cap(result.roundPricesList) == g("x/oracle/keeper/common.MaxDetID") * c.validatorLength && len(result.roundPricesList) == 0
+
+// C12 / C13 (each validator's voting power is counted once per source round): the duplicate filter identifies the
+// validator by the canonical consensus address the power is looked up and accumulated under (worker.do), whatever the
+// spelling of the Creator string - bech32 also accepts an all-upper-case spelling of the same address.
+//@ func (*filter).filtrate
+//@   requires price != nil
+//@   flag noframe
+//@   flag pure=AccAddressFromBech32,newVNSet,Add
+//@   flag havoc=addPSource
+//@   before[C12.flt.canonical,C13.flt.canonical] addPSource requires defined(res_AccAddressFromBech32_0) &&
+//@        (res_AccAddressFromBech32_1 == nil ==> defined(res_String_0) && arg_validator == res_String_0)
